@@ -528,8 +528,10 @@ def _c13_cases(tier, seed):
                 cases.append({"prop": "C13", "version": version, "pl": pl, "creator": "ref", "torrents": [spec], "seed": seed})
             cases.append({"prop": "C13", "version": 1, "pl": pl, "creator": "ref-align", "torrents": [spec], "seed": seed})
         # same file names inside one torrent (different / same sizes) and across the metafiles of a batch
+        # (the third: a payload whose only top-level entry is a directory carrying the torrent's own name)
         twins = [{"name": "tw", "files": [["x/data.bin", pl + 7], ["y/data.bin", 2 * pl + 9]]},
-                 {"name": "tw", "files": [["x/data.bin", pl + 7], ["y/data.bin", pl + 7]]}]
+                 {"name": "tw", "files": [["x/data.bin", pl + 7], ["y/data.bin", pl + 7]]},
+                 {"name": "album", "files": [["album/a.bin", pl + 7], ["album/sub/b.bin", 2 * pl + 1], ["album/c.txt", 9]]}]
         for spec in twins:
             for version in (1, 2, 3):
                 for scatter in ("orig", "split"):
@@ -708,6 +710,8 @@ def _c14_cases(tier, seed):
     for pl in pls:
         specs = [_spec(nm, f(pl), sh) for nm, _, sh, f in C14_TREES_Q]
         specs.append({"name": "tw", "files": [["x/data.bin", pl + 7], ["y/data.bin", pl + 7], ["y/z.bin", 3]]})
+        # a payload whose only top-level entry is a directory carrying the torrent's own name (first, so that it is not thinned)
+        specs.insert(0, {"name": "album", "files": [["album/a.bin", pl + 7], ["album/sub/b.bin", 2 * pl + 1], ["album/c.txt", 9]]})
         if tier != "quick":
             S = _sizes(pl)
             for i, (a, b) in enumerate(itertools.product(S[::2], S[1::3])):
@@ -721,8 +725,8 @@ def _c14_cases(tier, seed):
                     for pi, pat in enumerate(C14_PATTERNS):
                         for ri, runs in enumerate(C14_RUNS):
                             n += 1
-                            full = si < 8 and (tier != "quick" or (pi + ci + ri + si + version) % 4 == 0)
-                            thin = si >= 8 and (pi + ci + ri + si + version) % 8 == 0
+                            full = si < 9 and (tier != "quick" or (pi + ci + ri + si + version) % 4 == 0)
+                            thin = si >= 9 and (pi + ci + ri + si + version) % 8 == 0
                             if not (full or thin):
                                 continue
                             cases.append({"prop": "C14", "version": version, "pl": pl, "creator": "real", "torrents": [spec], "seed": seed,
@@ -778,7 +782,11 @@ def r_c14(acc, case):
 NEST = 16           # the destination lies NEST directories below the sandbox root; the longest '..' chain (name + elements) is 12
 C19_NAMES = ["t", "..", ".", "", "{ABS}/evil", "a/../../b", "../../../../..", "sub/../../x", "../t"]
 C19_DIRS = [[], [".."], ["..", ".."], ["."], [""], ["{ABS}/evil"], ["a/../../b"], ["..", "..", "..", "..", "..", ".."], ["x", "..", "..", ".."],
-            ["../.."], ["in", "{ABS}/evil"]]
+            ["../.."], ["in", "{ABS}/evil"],
+            # the parent spelt with separators / dot segments (one "component" for a normalising path library, a parent reference for
+            # os.path.join and the OS), and hostile elements hidden behind an empty element
+            ["../", "../", "../"], ["./..", "./..", "./.."], ["..//", "..//", "..//"], ["", "..", "..", ".."],
+            ["sub", "", "..", "..", "..", ".."], ["", "{ABS}/evil"], ["", "a/../../../../b"]]
 C19_LAST = [None, "../c.bin", "a/../../c.bin", "{ABS}/c.bin"]
 
 
@@ -985,7 +993,8 @@ def h_c19(tier, seed, hints):
               "directory, victims absent / shorter / same-sized at the place the hostile path points to, working directory with and without "
               "the torrent-relative directories; whole-sandbox snapshot (names, SHA-256) before / after: nothing outside the destination may "
               "be created, overwritten or deleted (rebuild may refuse by raising); distinct = whole case description",
-              "9 names x 11 directory-element lists x 4 last elements x 3 versions; absolute paths and '..' chains resolve inside the sandbox")
+              "9 names x 18 directory-element lists (incl. '../', './..', '..//' and hostile elements after an empty one) x 4 last elements x 3 "
+              "versions; absolute paths and '..' chains resolve inside the sandbox")
     cases = _c19_cases(tier) + [dict(c) for c in hints.get("cases", []) if c.get("prop") == "C19"]
     seen = set()
     for i, case in enumerate(cases):
